@@ -13,4 +13,5 @@ INVARIANT LawDestroyed
 INVARIANT LawConjunction
 INVARIANT LawConst
 INVARIANT LawRefine
+INVARIANT LawAccumulate
 CHECK_DEADLOCK FALSE
